@@ -17,7 +17,7 @@ import (
 func c05RetryGen(c *core.Ctx) func(yield func(c05Case) bool) {
 	return func(yield func(c05Case) bool) {
 		ok := true
-		allGraphs(3, []int{scen.ENone, scen.EName}, false, func(e [][]int) bool {
+		allGraphs(3, []int{scen.ENone, scen.EName, scen.ESlice}, false, func(e [][]int) bool {
 			for _, lz := range []int{2, 4, 6} {
 				lazy := []bool{false, lz&2 == 2, lz&4 == 4}
 				for i := 0; i < 3; i++ {
@@ -86,6 +86,22 @@ func c05Retry(c *core.Ctx) {
 				switch {
 				case published[t] && len(done[nm]) == 0:
 					c.Report(key("uninitialised"), "lifecycle-sequence", fmt.Sprintf("fault at [%s] (first attempt abandoned, error ignored by the caller): %s is published although its Init never completed; log=%s", armed, nm, strings.Join(log, " ")), cc)
+					return
+				}
+			}
+			// what a retry wires is what a first attempt would have wired: every point its target,
+			// every slice member exactly once
+			all := true
+			for _, pb := range published {
+				all = all && pb
+			}
+			if all {
+				ref := refGraph(p)
+				for i := range ref.created {
+					ref.created[i] = true
+				}
+				if bad := checkWiring(o, ref, false); len(bad) > 0 {
+					c.Report(key("wiring"), "wrong-wiring", fmt.Sprintf("fault at [%s] (attempt abandoned, error ignored, creation retried): %s; log=%s", armed, bad[0], strings.Join(log, " ")), cc)
 					return
 				}
 			}
